@@ -54,7 +54,7 @@ type Req struct {
 	Batch  []BOp      `json:"batch,omitempty"`
 	Fill   int        `json:"fill,omitempty"` // batch: filler puts appended after Batch (pool keys cyclically)
 	Scan   *Scan      `json:"scan,omitempty"`
-	Seeds  []int      `json:"seeds,omitempty"` // scanproduct: pool indices / lengths the option values are derived from
+	Seeds  []int      `json:"seeds,omitempty"`  // scanproduct: pool indices / lengths the option values are derived from
 	Direct bool       `json:"direct,omitempty"` // call the server method directly instead of through the transport
 }
 
